@@ -260,18 +260,24 @@ def rename_vars(s, m):
     return instantiate(s, variables={k: V(v) for k, v in m.items()})
 
 
-def canon_triple(P, T, K):
+def canon_triple(P, T, K, R=None):
+    """Variables renamed v0, v1, ... in order of occurrence; K (and the right-hand candidate set
+    R, when one is given) renamed along."""
     m = {}
     for n in var_names(P) + var_names(T):
         if n not in m:
             m[n] = f"v{len(m)}"
-    K2 = sorted(m[k] for k in K if k in m)
-    extra = sorted(k for k in K if k not in m)
-    return rename_vars(P, m), rename_vars(T, m), tuple(K2 + extra)
+
+    def ren(names):
+        return tuple(sorted(m[k] for k in names if k in m) + sorted(k for k in names if k not in m))
+    if R is None:
+        return rename_vars(P, m), rename_vars(T, m), ren(K)
+    return rename_vars(P, m), rename_vars(T, m), ren(K), ren(R)
 
 
-def show_triple(P, T, K):
-    return f"{show(P)} ~ {show(T)} / {{{','.join(K)}}}"
+def show_triple(P, T, K, R=None):
+    rhs = "" if R is None else f" rhs={{{','.join(R)}}}"
+    return f"{show(P)} ~ {show(T)} / {{{','.join(K)}}}{rhs}"
 
 # }}}
 
@@ -286,8 +292,9 @@ def _size(s):
     return sum(1 for _ in subterms(s))
 
 
-def shrink_triple(P, T, K, kind, kind_of, budget=150):
-    """Greedy: keep a simplification when the triple still fails with the same kind."""
+def shrink_triple(P, T, K, kind, kind_of, budget=150, R=None):
+    """Greedy: keep a simplification when the triple still fails with the same kind.  R (the
+    right-hand candidate set the caller's kind_of uses) is kept as it is and only renamed."""
     K = tuple(sorted(K))
     used = set(var_names(P)) | set(var_names(T)) | set(K)
 
@@ -329,7 +336,7 @@ def shrink_triple(P, T, K, kind, kind_of, budget=150):
         yield sort_ac(P), T, K, None
         consts = []
         for c in list(subterms(P)) + list(subterms(T)):
-            if c[0] in ("int", "float", "bool", "complex") and c not in consts:
+            if c[0] in ("int", "float", "bool", "complex", "np") and c not in consts:
                 consts.append(c)
         for c in consts:
             n = fresh()
@@ -354,6 +361,6 @@ def shrink_triple(P, T, K, kind, kind_of, budget=150):
                 break
             if budget <= 0:
                 break
-    return canon_triple(P, T, K)
+    return canon_triple(P, T, K, R)
 
 # }}}
